@@ -417,6 +417,10 @@ func (c *Cluster) heal() {
 		}
 		c.debugState("no convergence")
 		c.mon.report("C15", "", "no convergence %d election timeouts after the faults stopped: %s", rounds/et, st.why)
+		if strings.Contains(st.why, "that leaves automatically") {
+			// C10: an auto-leave joint configuration is left by the leader itself once applied
+			c.mon.report("C10", "", "%d election timeouts after the faults stopped: %s", rounds/et, st.why)
+		}
 		return
 	}
 	c.mon.healed++
